@@ -234,3 +234,55 @@ B('d_b_adapt_key_normalised_only_falsy', ['C09'], 'R09.b',
   (E, _ADAPT_LOOKUP, "        if not mimetype:\n            mimetype = 'text/plain'\n        fmt_name = MIME_SUPPORT_MAP[mimetype]\n"))
 B('d_b_adapt_key_normalised_to_html', ['C09'], 'R09.b',
   (E, _ADAPT_LOOKUP, "        if mimetype not in MIME_SUPPORT_MAP:\n            mimetype = 'text/html'\n        fmt_name = MIME_SUPPORT_MAP[mimetype]\n"))
+
+# ------------------------------------------------------------------ def-use order inside HTTPException.__init__ (R09.a)
+# the status is the instance code only when the read of self.code that produces it happens after the override; the
+# renderings made in the constructor must come after the writes of the fields they show
+_INIT_HEAD = "    def __init__(self, detail=None, **kwargs):\n        self.detail = detail or self.detail\n"
+_INIT_DEF = "    def __init__(self, detail=None, **kwargs):\n"
+_INIT_DETAIL = "        self.detail = detail or self.detail\n"
+_INIT_MESSAGE = "        self.message = kwargs.pop('message', self.message)\n"
+_INIT_CODE = "        self.code = kwargs.pop('code', self.code)\n"
+_INIT_ADAPT = "        if mimetype != DEFAULT_MIME:\n            self.adapt(mimetype)\n        return\n"
+_SUPER_EXTRA = ("        mimetype = kwargs.pop('mimetype', DEFAULT_MIME)\n"
+                "        extra['content_type'] = kwargs.pop('content_type', None)\n"
+                "        super(HTTPException, self).__init__(response=self.to_text(), mimetype=DEFAULT_MIME, **extra)\n")
+B('d2_b_status_dict_before_override', ['C09'], 'R09.a',
+  (E, _INIT_HEAD, _INIT_DEF + "        extra = {'status': self.code, 'headers': kwargs.pop('headers', None)}\n" + _INIT_DETAIL),
+  (E, _INIT_SUPER, _SUPER_EXTRA))
+B('d2_b_status_local_before_override', ['C09'], 'R09.a',
+  (E, _INIT_HEAD, _INIT_DEF + "        status = self.code\n" + _INIT_DETAIL),
+  (E, "                                            status=self.code,\n", "                                            status=status,\n"))
+B('d2_b_status_update_before_override', ['C09'], 'R09.a',
+  (E, _INIT_HEAD, _INIT_DEF + "        extra = {}\n        extra.update(status=self.code)\n" + _INIT_DETAIL),
+  (E, _INIT_SUPER, "        extra['headers'] = kwargs.pop('headers', None)\n" + _SUPER_EXTRA))
+B('d2_b_status_local_chain_before_override', ['C09'], 'R09.a',
+  (E, _INIT_CODE, "        class_code = self.code\n" + _INIT_CODE + "        status = class_code\n"),
+  (E, "                                            status=self.code,\n", "                                            status=status,\n"))
+B('d2_b_override_after_base_init', ['C09'], 'R09.a',
+  (E, _INIT_CODE, ""),
+  (E, _INIT_ADAPT, _INIT_CODE + _INIT_ADAPT))
+B('d2_b_code_written_twice', ['C09'], 'R09.a',
+  (E, _INIT_SUPER, "        if not self.is_breaking:\n            self.code = type(self).code\n" + _INIT_SUPER))
+B('d2_b_body_rendered_before_fields', ['C09'], 'R09.a',
+  (E, _INIT_HEAD, _INIT_DEF + "        body = self.to_text()\n" + _INIT_DETAIL),
+  (E, "super(HTTPException, self).__init__(response=self.to_text(),", "super(HTTPException, self).__init__(response=body,"))
+B('d2_b_detail_set_after_adapt', ['C09'], 'R09.a',
+  (E, _INIT_HEAD, _INIT_DEF),
+  (E, _INIT_ADAPT, "        if mimetype != DEFAULT_MIME:\n            self.adapt(mimetype)\n" + _INIT_DETAIL))
+B('d2_b_message_set_after_default_body', ['C09'], 'R09.a',
+  (E, _INIT_MESSAGE, ""),
+  (E, _INIT_ADAPT, _INIT_MESSAGE + _INIT_ADAPT))
+T('d2_t_status_dict_after_override', ['C09'],
+  (E, _INIT_SUPER, "        extra = dict(status=self.code, headers=kwargs.pop('headers', None))\n" + _SUPER_EXTRA))
+T('d2_t_status_local_after_override', ['C09'],
+  (E, _INIT_CODE, _INIT_CODE + "        status = self.code\n"),
+  (E, "                                            status=self.code,\n", "                                            status=status,\n"))
+T('d2_t_code_local_shared', ['C09'],
+  (E, _INIT_CODE, "        code = kwargs.pop('code', self.code)\n        self.code = code\n"),
+  (E, "                                            status=self.code,\n", "                                            status=code,\n"))
+T('d2_t_detail_set_conditionally', ['C09'],
+  (E, _INIT_DETAIL, "        if detail:\n            self.detail = detail\n"))
+T('d2_t_body_local_after_fields', ['C09'],
+  (E, _INIT_SUPER, _INIT_SUPER.replace("response=self.to_text(),", "response=body,").replace(
+      "        super(HTTPException", "        body = self.to_text()\n        super(HTTPException")))
